@@ -80,6 +80,50 @@ Definition classify (st : str) : stmt :=
   end.
 Definition parse_then (s : str) : list stmt := map classify (then_statements s).
 
+(** split_when_then (repair fded141): the conditions start after the first `when` that is followed by whitespace and end at the
+    first whitespace character OUTSIDE string literals (not the first character of the conditions) after which - skipping further
+    whitespace - the keyword `then`, at least one whitespace character and a non-empty rest follow *)
+Definition s_when : str := [119; 104; 101; 110].
+Definition s_then : str := [116; 104; 101; 110].
+Definition tstart (s : str) : str := trim_start ws_unicode s.
+
+Fixpoint after_when (fuel : nat) (s : str) : option str :=
+  match fuel with
+  | O => None
+  | S f =>
+      if starts_with s s_when then
+        let r := skipn 4 s in
+        let r' := tstart r in
+        if (length r' <? length r)%nat then Some r' else after_when f r
+      else match s with [] => None | _ :: r => after_when f r end
+  end.
+
+Fixpoint scan_then (s : str) (q : option Z) (acc : str) (first : bool) : option (str * str) :=
+  match s with
+  | [] => None
+  | c :: r =>
+      match q with
+      | Some _ => scan_then r (qstep q c) (c :: acc) false
+      | None =>
+          if is_quote c then scan_then r (Some c) (c :: acc) false
+          else if ws_unicode c && negb first then
+                 let rest := tstart s in
+                 if starts_with rest s_then then
+                   let tail := skipn 4 rest in
+                   let actions := tstart tail in
+                   if (length actions <? length tail)%nat && nonempty actions then Some (rev acc, actions)
+                   else scan_then r None (c :: acc) false
+                 else scan_then r None (c :: acc) false
+               else scan_then r None (c :: acc) false
+      end
+  end.
+
+Definition split_when_then (body : str) : option (str * str) :=
+  match after_when (S (length body)) body with
+  | Some conds => scan_then conds None [] true
+  | None => None
+  end.
+
 (** ---------- the written side: what a then clause / an argument list is made of ---------- *)
 (** a piece of text that leaves the quote automaton where it found it (outside) and contains no separator outside its literals *)
 Fixpoint nosep_q (sep : Z) (s : str) (q : option Z) : bool :=
@@ -113,3 +157,5 @@ Definition enc_stmt (s : stmt) : sx :=
   | SPanic => L [A 9; L []]
   end.
 Definition run_then (t : str) : sx := L [A 0; L (map enc_stmt (parse_then t))].
+(* (5 text) split_when_then -> () | ((conditions) (actions)) *)
+Definition run_when_then (t : str) : sx := match split_when_then t with Some (c, a) => L [enc_s c; enc_s a] | None => L [] end.
